@@ -136,6 +136,7 @@ def digit_int(ctx, name, kind, negative, ndigits):
         t = z3.Int('%s_d%d' % (name, k))
         ctx.inputs['%s_d%d' % (name, k)] = t
         ctx.add(z3.And(t >= 48, t <= 57))
+        ctx.declare_domain(t, range(48, 58))
         ds.append(t)
     if ndigits > 1:
         ctx.add(ds[0] != 48)
